@@ -51,4 +51,12 @@ PROPS = {
                                      "crash states are materialised with os.Create semantics for plain puts and all-or-nothing for atomic puts (the latter is C15's theorem + kill campaign)"],
         "assumptions": ["SHAKE256 collision resistance", "flock gives mutual exclusion between processes", "only b5 module keys", "read-then-hash of one ModuleData is treated as one snapshot"],
     },
+    "C02": {
+        "harness": "c02", "protocol": "c02", "level": "proof", "stateful": False,
+        "timeout_quick": 600,
+        "rule": "Part A: random job lists (0-8 jobs, each failing with probability 1/5) through the real thread.Parallelize with/without cancel-on-failure under parallelism 1/2/4/16 and seeded yields/delays at the verif hook points; verdict compared with the model. Part B (exploration): generated 1-4-module workspaces (cross-module imports, WKT imports, unsorted imports, lint violations, LICENSE/README) built in-process; image bytes, image file order/flags, lint, breaking-vs-self, format, ls-files, b5 digests and the dependency graph compared between the default run and 6 variations (12 in thorough) of GOMAXPROCS, parallelism, hook yields, storage walk order and module listing order. Part C: the real buf binary (build -o -, lint json, ls-files, format -d, json build, --path in both orders) under GOMAXPROCS unset/1/2/16. Non-trivial: a job fails (A); every B/C comparison counts as one evaluation; distinct = distinct (workspace, variation) pairs.",
+        "trusted_base": COMMON_TB + ["real goroutine schedules are sampled (GOMAXPROCS, parallelism, hook yields), not enumerated; protocompile's internal parallelism is exercised, not modelled",
+                                     "order-independence of the logic is proved per model (this file gathers the theorems); data-race freedom is not proved"],
+        "assumptions": ["the Go scheduler can only reorder job completions and delay cancellation visibility", "byte equality of outputs across variations is the determinism observable"],
+    },
 }
